@@ -118,9 +118,47 @@ func (p *Program) declResults(prop string, cfg *PropConfig, results []*FuncResul
 				problems = append(problems, fmt.Sprintf("jsonfields %s: no such struct type in the loaded program", d.Name))
 				continue
 			}
+			// custom (own or promoted) MarshalJSON / UnmarshalJSON methods decide the JSON form instead of the fields and their
+			// tags: each must be under contract (a method promoted from an embedded struct silently drops the outer fields)
+			var named types.Type
+			if tp := p.pkgByName(parts[0]); tp != nil {
+				if tn, ok := tp.Scope().Lookup(parts[1]).(*types.TypeName); ok {
+					named = tn.Type()
+				}
+			}
+			custom := map[string]bool{}
+			if named != nil {
+				ms := types.NewMethodSet(types.NewPointer(named))
+				for _, mname := range []string{"MarshalJSON", "UnmarshalJSON"} {
+					sel := ms.Lookup(nil, mname)
+					if sel == nil {
+						continue
+					}
+					custom[mname] = true
+					fobj, _ := sel.Obj().(*types.Func)
+					under := false
+					if fobj != nil {
+						if sf := p.ssaProg.FuncValue(fobj); sf != nil {
+							if c := p.contracts.Funcs[p.funcName(sf)]; c != nil {
+								under = true
+							}
+						}
+					}
+					if !under {
+						where := ""
+						if len(sel.Index()) > 1 {
+							where = " (promoted from an embedded field: it renders that field only, the other fields of " + d.Name + " are not carried)"
+						}
+						problems = append(problems, fmt.Sprintf("jsonfields %s: the type has a %s method%s that is not under contract: the JSON form is what that method says, not what the field tags say", d.Name, mname, where))
+					}
+				}
+			}
 			names := map[string]string{}
 			for i := 0; i < st.NumFields(); i++ {
 				f := st.Field(i)
+				if it, ok := f.Type().Underlying().(*types.Interface); ok && it.NumMethods() > 0 && !custom["UnmarshalJSON"] {
+					problems = append(problems, fmt.Sprintf("jsonfields %s: field %s has the interface type %s and the struct has no UnmarshalJSON: encoding/json cannot decode a non-null value into it, a value does not survive its JSON round trip", d.Name, f.Name(), types.TypeString(f.Type(), func(pk *types.Package) string { return pk.Name() })))
+				}
 				tag := reflect.StructTag(st.Tag(i)).Get("json")
 				name := strings.Split(tag, ",")[0]
 				switch {
